@@ -48,12 +48,12 @@ PROPS = {
     "C12": {
         "units": ["auth"],
         "kani": [],
-        "level_text": "Proof of the decision kernel of authentication: validate_call/validate_notification return exactly `authorized || method not on the list` (an iff); the HTTP layer inserts the Authorized marker iff allow_all or the Authorization header equals the configured one and never rejects; new() never sets allow_all; the three middleware entry points on their real bodies: call forwards the request to the inner service iff it is permitted and otherwise answers 401 without forwarding, notification forwards iff permitted and otherwise drops it, batch filters every element at every position on its own (loop invariant over the whole batch: a permitted element or an earlier error is handed on unchanged, any other element is replaced by a 401 error before the batch is forwarded); per-method obligations regenerated from api.rs on every run: every RPC method is protected or on the statement's read-only allow-list, the 11 mutating methods named in the statement are protected one by one.",
-        "level_note": "Assumed: jsonrpsee Request/Notification/Extensions and hyper headers as opaque shims with uninterpreted observers; HashSet<String>::contains(&str) and Option<&str> equality wrappers (N21, N22); base64/format! of the header value not modelled. jsonrpsee's Batch/BatchEntry/MethodResponse/ErrorObject as small structural shims and `ResponseFuture::ready(..)` / `ResponseFuture::future(self.service.x(..))` rewritten to a `Handed` enum that records what is answered at once and what is forwarded (N36). Not covered: RpcAuthMiddleware::new (collect into the HashSet), the middleware wiring in start_rpc_server, that jsonrpsee executes a method only when the inner service receives it (`state unchanged after refusal` rests on that).",
+        "level_text": "Proof of the decision kernel of authentication: validate_call/validate_notification return exactly `authorized || method not on the list` (an iff); the HTTP layer inserts the Authorized marker iff allow_all or the Authorization header equals the configured one and never rejects; new() never sets allow_all; the wiring in start_rpc_server (the two middleware arguments lifted out of the builder chain): with authentication enabled the HTTP layer is HttpNonBlockingAuth::new of the configured credentials (never allow()), missing credentials stop start-up, and the RPC layer is constructed with the INDEXER_METHODS list; the three middleware entry points on their real bodies: call forwards the request to the inner service iff it is permitted and otherwise answers 401 without forwarding, notification forwards iff permitted and otherwise drops it, batch filters every element at every position on its own (loop invariant over the whole batch: a permitted element or an earlier error is handed on unchanged, any other element is replaced by a 401 error before the batch is forwarded); per-method obligations regenerated from api.rs on every run: every RPC method is protected or on the statement's read-only allow-list, the 11 mutating methods named in the statement are protected one by one.",
+        "level_note": "Assumed: jsonrpsee Request/Notification/Extensions and hyper headers as opaque shims with uninterpreted observers; HashSet<String>::contains(&str) and Option<&str> equality wrappers (N21, N22); base64/format! of the header value not modelled. jsonrpsee's Batch/BatchEntry/MethodResponse/ErrorObject as small structural shims and `ResponseFuture::ready(..)` / `ResponseFuture::future(self.service.x(..))` rewritten to a `Handed` enum that records what is answered at once and what is forwarded (N36). Not covered: the body of RpcAuthMiddleware::new (collect into the HashSet), that the two layers are installed on the server builder (set_http_middleware / set_rpc_middleware), that jsonrpsee executes a method only when the inner service receives it (`state unchanged after refusal` rests on that).",
         "assumptions": [
             "jsonrpsee/hyper request types are opaque shims (extensions().get::<Authorized>(), method_name(), headers().get(..), extensions_mut().insert(..))",
             "jsonrpsee executes a method only when the inner RpcService receives the call / notification / Ok batch entry; Batch::iter_mut walks the entries in order (N36)",
-            "the wiring in rpc_server.rs / start.rs (which layers are installed, with which deny list) is outside the kernel",
+            "installation of the two layers on the jsonrpsee server builder is outside the kernel (their arguments are inside)",
             "the method-list obligations are syntactic: api.rs `#[method(name=..)]` attributes and the INDEXER_METHODS literal are re-read on every run",
         ],
     },
@@ -80,8 +80,8 @@ PROPS = {
 PROPS["C20"] = {
     "units": ["configdb"],
     "kani": [],
-    "level_text": "Proof on the real functions: ConfigDatabase::validate returns Ok iff the stored value exists and equals the given one (missing record => Err); get prefers the in-memory row, set writes through; validate_config_database reaches Ok only with all four settings (DB_VERSION, PROTOCOL_VERSION, BITCOIN_RPC_NETWORK, EVM_RECORD_TRACES) recorded and equal to the running configuration, whether just written (fresh directory) or validated; and, over an uninterpreted model of the directory at entry (fs_exists / fs_nonempty / fs_config = the rows of the config database on disk): a NON-EMPTY directory whose recorded configuration lacks or differs in any of the four settings - including a directory with data and no configuration at all - makes the function return Err; versions pinned (7 / 2).",
-    "level_note": "Assumed: file system predicates (exists, is_dir, read_dir, join) uninterpreted, read_dir().next() answers fs_nonempty, create_dir_all of a missing directory creates an empty one; ConfigDatabase::new opens the rows that are on disk (fs_config); String codec injective on text (axiom; proved for the byte-vector codec in unit codec); HashMap<String,String> keyed by text through trusted wrappers (N23); decimal/bool to_string opaque. Not covered: start() calling the check before opening the engine (async), `an identical configuration always reopens successfully` beyond the absence of I/O errors.",
+    "level_text": "Proof on the real functions: ConfigDatabase::validate returns Ok iff the stored value exists and equals the given one (missing record => Err); get prefers the in-memory row, set writes through; validate_config_database reaches Ok only with all four settings (DB_VERSION, PROTOCOL_VERSION, BITCOIN_RPC_NETWORK, EVM_RECORD_TRACES) recorded and equal to the running configuration, whether just written (fresh directory) or validated; and, over an uninterpreted model of the directory at entry (fs_exists / fs_nonempty / fs_config = the rows of the config database on disk): a NON-EMPTY directory whose recorded configuration lacks or differs in any of the four settings - including a directory with data and no configuration at all - makes the function return Err; start() on its real body (async -> fn): the data tables of a directory are opened only after validate_config_database succeeded for that directory; versions pinned (7 / 2).",
+    "level_note": "Assumed: file system predicates (exists, is_dir, read_dir, join) uninterpreted, read_dir().next() answers fs_nonempty, create_dir_all of a missing directory creates an empty one; ConfigDatabase::new opens the rows that are on disk (fs_config); String codec injective on text (axiom; proved for the byte-vector codec in unit codec); HashMap<String,String> keyed by text through trusted wrappers (N23); decimal/bool to_string opaque. Not covered: `an identical configuration always reopens successfully` beyond the absence of I/O errors.",
     "assumptions": [
         "file system and RocksDB behave as the shims say; I/O errors make the function return Err (allowed by the property: start-up fails)",
         "lazy_static key/value literals are re-read from config.rs on every run (rule N6)",
